@@ -7,6 +7,7 @@ import contracts
 import guards
 import keyrule
 import wire
+from symex import Sym, Unsupported
 
 LEVEL = 'other'
 TITLE = 'C02 every factory-built node reports exactly the operands it was built from'
@@ -220,6 +221,49 @@ def run(ck, F):
     K.finish_cover()
     import c11
     c11.merge_rule_for(ck, F, 'C02')
+    # a declaration entered a second time (same name and type: a redeclaration; or a new type under a known name) reports its own
+    # operands like a first declaration does
+    R_re = ck.rule('C02.redeclaration-operands', 'a declaration entered into a scope that already holds declarations (redeclaration, new type '
+                   'under a known name, new name) reports, under every accessor except those of the shared bookkeeping (master, decl-set, primary template, definition), what a first declaration with the same '
+                   'arguments reports: the bookkeeping path taken does not change the operands exposed', floor=16)
+    import re as _re
+    SK = Sym(F, opaque=keyrule.key_opaque(F), max_depth=64)
+    makers = [g for g in F.fns_in('ipr::impl::Scope') if g['name'].startswith('make_') and g.get('body') is not None]
+    if len(makers) < 8:
+        raise AnalysisBroken(f'only {len(makers)} Scope::make_* functions found')
+
+    def unq(sv):
+        return _re.sub(r'P1(\d\d)', lambda m: 'P' + str(int(m.group(1))), sv) if isinstance(sv, str) else sv
+    for g in sorted(makers, key=lambda g: g['id']):
+        try:
+            firsts = [r for r in SK.run(g['id']) if r[1] == 'return']
+            if len(firsts) != 1:
+                raise AnalysisBroken(f'{g["id"]}: {len(firsts)} paths on an empty scope')
+            st1, _k, v1 = firsts[0]
+            first = v1[1] if v1[0] == 'addr' else v1
+            a1 = contracts.observe(SK, F, st1, first, contracts.name_paths(st1, first))
+            seconds = [r for r in SK.run(g['id'], args=keyrule.qparams(len(g['params'])), state=st1.fork()) if r[1] == 'return']
+        except Unsupported as e:
+            raise AnalysisBroken(f'{g["id"]}: outside the evaluator language: {e}')
+        for j, (st2, _k2, v2) in enumerate(seconds):
+            node = v2[1] if v2[0] == 'addr' else v2
+            a2 = contracts.observe(SK, F, st2, node, contracts.name_paths(st2, node))
+            # (what a redeclaration shares with the first declaration by design -- C07's subject -- is not an operand)
+            SHARED = ('master', 'primary_template', 'decl_set', 'specializations', 'definition')
+            diff = {k: (a1.get(k), unq(a2.get(k))) for k in set(a1) | set(a2) if k not in SHARED and a1.get(k) != unq(a2.get(k))}
+            how = contracts.render_conds(st2.conds[len(st1.conds):], st2, {})
+            kind = 'redeclaration' if how.count('found(') == 2 and '!found' not in how else ('new type' if how.startswith('found(') else 'new name')
+            ck.check(R_re, f'Scope::{g["name"]}/second request#{j} ({kind})', not diff,
+                     f'{g["id"]} ({kind}): ' + '; '.join(f'{k}() yields `{str(b)[:70]}` where a first declaration yields `{str(a)[:70]}`' for k, (a, b) in sorted(diff.items())),
+                     loc=g['loc'], fn=g['id'])
+
+    # a node that is given a spelling reports the String interned for it: that String views exactly the bytes and the length of
+    # the request (the arena copy made by make_string(word.data(), word.length())), whatever bytes the spelling contains
+    R_str = ck.rule('C02.string-content', 'the String created for a spelling views the data and the length of the one arena header made '
+                    'from (word.data(), word.length()): every byte of the request, embedded NULs included, and no other', floor=1)
+    import arena
+    for inst, ok, msg, loc, fid in arena.owned_bytes(F):
+        ck.check(R_str, inst, ok, msg + ' -- characters() of the node is not the spelling it was given', loc=loc, fn=fid)
     K.finish_partial(())
     for r in (K.R_diag, K.R_lex):
         ck.rules[r]['floor'] = 30
